@@ -100,6 +100,13 @@ func checkCacheHistory(limit int, relaxed int, ops []cOp) linResult {
 				}
 			}
 		}
+		if o.in.kind == cSet {
+			for _, p := range ops {
+				if p.in.kind == cSet && p.in.key != o.in.key && p.client != o.client && p.call < o.ret && o.call < p.ret {
+					o.in.raceKeys |= uint32(1) << uint(p.in.key%32)
+				}
+			}
+		}
 		pops[i] = porcupine.Operation{ClientId: o.client, Input: o.in, Call: o.call, Output: o.out, Return: o.ret}
 	}
 	ok := porcupine.CheckOperations(cachePorcupineModel(m), pops)
